@@ -697,11 +697,8 @@ func (fr *Frame) appendOp(st *State, c *ssa.CallCommon, v ssa.Value) Val {
 			}
 			b := fr.tv(st, c.Args[1])
 			if b.Sort == SInt {
-				// append(nil-or-empty, k...) is a copy of k
-				res := r.freshOf(st, "appkey", rt)
-				r.assume(st, implies(eq(a.S, "0"), eq(res.S, b.S)))
-				r.assume(st, implies(eq(b.S, "0"), eq(res.S, a.S)))
-				return res
+				// append(a, k...) is the concatenation of two keys
+				return TV{r.define("appkey", SInt, app("kcat", a.S, b.S)), SInt, rt}
 			}
 		}
 		return r.freshOf(st, "appkey", rt)
